@@ -21,7 +21,7 @@ inductive Exc where
   | failedPause | requestAbort | requestStop | planHalt | cancelled
   | failedStatus (k : Nat) | illegalSeq | invalidCommand | deviceError
   | planError | stopIteration | transitionError | waitForTimeout | runtimeError
-  | genExit | valueError | noReplay
+  | genExit | valueError | noReplay | typeError
 deriving Repr, DecidableEq, Inhabited
 
 def Exc.name : Exc → String
@@ -31,7 +31,7 @@ def Exc.name : Exc → String
   | .deviceError => "DeviceError" | .planError => "PlanError" | .stopIteration => "StopIteration"
   | .transitionError => "TransitionError" | .waitForTimeout => "WaitForTimeoutError"
   | .runtimeError => "RuntimeError" | .genExit => "GeneratorExit" | .valueError => "ValueError"
-  | .noReplay => "NoReplayAllowed"
+  | .noReplay => "NoReplayAllowed" | .typeError => "TypeError"
 
 /-- `isinstance(e, Exception)`: PlanHalt (a GeneratorExit), GeneratorExit and CancelledError are
     BaseException-only. -/
@@ -91,6 +91,7 @@ inductive Gen where
   | user (beh : Beh) (hist : List Inp) (dead : Bool)   -- arbitrary plan
   | list (msgs : List Msg)                              -- `ensure_generator(list)`, `single_gen(msg)`
   | chain (cur : Gen) (rest : List Gen)                 -- `yield from a; yield from b; ...` with no try blocks
+  | fresh (msgs : List Msg)                             -- a list generator that has not been started yet
 deriving Inhabited
 
 /-- One resume of a generator (send or throw) following the CPython generator protocol. -/
@@ -116,6 +117,16 @@ def Gen.resume : Gen → Inp → Out × Gen
       match msgs with
       | [] => (.ret, .list [])
       | m :: ms => (.yld m, .list ms)
+  | .fresh msgs, inp =>
+    -- CPython: "TypeError: can't send non-None value to a just-started generator"
+    match inp with
+    | .throw e => (.raise (if e == .stopIteration then .runtimeError else e), .list [])
+    | .send r =>
+      if r == .none then
+        match msgs with
+        | [] => (.ret, .list [])
+        | m :: ms => (.yld m, .list ms)
+      else (.raise .typeError, .fresh msgs)
   | .chain cur rest, inp =>
     match cur.resume inp with
     | (.yld m, cur') => (.yld m, .chain cur' rest)
